@@ -68,7 +68,7 @@ func buildC16(tier string, seed int64) *Family {
 	// evaluated natively on both sides): the pattern may differ from candidate to candidate
 	rcfg := docCfg{N: 3, A: 1, Names: "a,b", Pool: ",1,x,1x"}
 	if tier == "thorough" {
-		rcfg = docCfg{N: 4, A: 1, Names: "a,b", Pool: ",1,x,1x,(1)"}
+		rcfg = docCfg{N: 3, A: 1, Names: "a,b", Pool: ",1,x,1x,(1),1|x"}
 	}
 	for _, x := range []string{"//*[matches(., string(@a))]", "//*[matches('1x', string(.))]", "//*[matches(@a, '^1')]", "//*[matches(a, string(@a))]", "//*[not(matches(., 'x'))]"} {
 		in := nodesetInst(x, rcfg)
